@@ -64,6 +64,12 @@ def build(V, cfg):
                 cnd = SimTimeCondition(wn, Comparison.eq, 0)
                 cnd._threshold = V.int('t%d' % k, 0, hi)
             wn.add_control(name, Control(cnd, ControlAction(tgt, kind, val), priority=ControlPriority(spec.get('priority', 3))))
+        elif kind == 'pump_curve':
+            # a control that swaps the head curve of the head pump (the updater has a registration for pump_curve_name)
+            wn.add_curve('HC2', 'HEAD', [(0.05, 60.0)])
+            cnd = SimTimeCondition(wn, Comparison.eq, 0)
+            cnd._threshold = V.int('t%d' % k, 0, hi)
+            wn.add_control(name, Control(cnd, ControlAction(wn.get_link(spec['target']), 'pump_curve_name', 'HC2')))
         elif kind == 'leak':
             node = wn.get_node(spec['target'])
             node.add_leak(wn, 0.001, 0.75, start_time=0, end_time=0)
@@ -86,14 +92,16 @@ def build(V, cfg):
     return wn
 
 
-def policy(tank_q=TANK_Q):
+def policy(tank_q=TANK_Q, heads=None):
+    heads = heads or {}
+
     def flow_of(plane, wn, ln):
         if ln == 'P3':
             return tank_q(wn) if callable(tank_q) else tank_q
         if ln == 'PT':
             return 0.05
         return 0.004
-    return ctrlplane.table_policy(flow_of, lambda pl, wn, nn: 35.0, leak_of=lambda pl, wn, nn: 0.002)
+    return ctrlplane.table_policy(flow_of, lambda pl, wn, nn: heads.get(nn, 35.0), leak_of=lambda pl, wn, nn: 0.002)
 
 
 TABLES = [('link', 'status'), ('link', 'setting'), ('link', 'flowrate'), ('node', 'head'), ('node', 'leak_demand'), ('node', 'demand')]
